@@ -5,6 +5,10 @@ V = os.path.dirname(os.path.dirname(os.path.abspath(__file__)))
 ids = [json.loads(l)["id"] for l in open(os.path.join(V, "properties.jsonl"))]
 
 CHECKS = {
+ "C19": dict(cat="exploration", design="§4 C19", engine="E-cli + E-ffi",
+   technique="property-based testing: enumerated + Hypothesis-generated argument vectors through hand-encoded binary bytecode and a probe dynamic library (echo oracle)",
+   text="Argument vectors of length 0-6 over int, bigint, float, byte, bool and str (extremes and strings with quotes, backslashes, tabs, newlines, non-ASCII) are pushed by bytecode the harness encodes itself, passed through `call_lib` to a probe dylib built against the working tree's bytecode crate, and the probe prints the slice it received; the four return forms (echo first, echo last, no value, raised error) and the faults missing library / missing symbol are crossed with them. The probe's lines must equal the vector in order, `printn *` after the call must show exactly the returned value, and errors/faults must stop the program with exit status 1, the message on stderr and no later output. Every single value x form and a grid of pairs are enumerated; longer vectors are sampled.",
+   note="One toolchain-matched Rust dylib; Debug/Display text of the repo's Primitive is the observation channel (floats restricted to values whose Debug form is positional)."),
  "C14": dict(cat="exploration", design="§4 C14",
    technique="property-based testing: exhaustive boundary cross products + Hypothesis random calls against independent Python implementations of every built-in",
    text="Every string and number method of the statement is called on receivers held in run-time variables over the cross product of boundary receivers (empty, 1-char, ASCII, multi-byte text; extremes of int/bigint/byte, notable floats) and boundary arguments (indices -1..len+1, exponents -1/0/1/2/31/127, radices 1/2/10/16/36/37, numeric-looking and malformed text for the parsers), plus Hypothesis-drawn calls; with typed print, kind and value must equal an independent Python implementation of the documented meaning, and out-of-domain calls must stop with a failure. The boundary cross product is complete for the listed sets; everything else is sampled.",
